@@ -50,6 +50,9 @@
 #include <tbox/flow/actions/repeat_action.h>
 #include <tbox/flow/actions/wrapper_action.h>
 #include <tbox/flow/actions/composite_action.h>
+#include <tbox/flow/actions/sleep_action.h>
+#include <tbox/flow/actions/function_action.h>
+#include <tbox/event/timer_event_impl.h>
 #include <time.h>
 #include <sys/time.h>
 #include <sys/syscall.h>
@@ -75,8 +78,12 @@ static const char *kLoopMode[] = {"Forever", "UntilFail", "UntilSucc"};
 static const char *kRepMode[] = {"NoBreak", "BreakFail", "BreakSucc"};
 static const char *kWrapMode[] = {"Normal", "Invert", "AlwaySucc", "AlwayFail"};
 
-enum Out { oS, oF, oB, oN, oSF, oFS };   // succeed / fail / block (then succeed when resumed) / never / succeed on the first run then fail / fail first then succeed
-static const char *kOut[] = {"S", "F", "B", "N", "SF", "FS"};
+enum Out { oS, oF, oB, oN, oSF, oFS, oSL, oFP, oFM, oLS, oLF };   // succeed / fail / block (then succeed when resumed) / never / succeed on the first run then fail / fail first then succeed /
+// library leaves: SleepAction(50 ms) / FunctionAction returning true / false / "late" probe leaves: succeed / fail after <delay> passes EVEN IF the leaf was paused or stopped meanwhile
+// (an asynchronous completion that arrives late: finish() must be refused and nothing delivered once the leaf is stopped; it is accepted while the leaf is only paused)
+static const char *kOut[] = {"S", "F", "B", "N", "SF", "FS", "SL", "Fn+", "Fn-", "LS", "LF"};
+static bool lib_leaf(int out) { return out == oSL || out == oFP || out == oFM; }
+static const int SLEEP_MS = 50;      // SleepAction time span
 struct Script { uint8_t out, delay, msg; };   // delay: 0 = inside onStart (onResume for B), 1/2 = that many passes later; msg: 0 "", 1 "case:a", 2 "case:b"
 static const char *kMsg[] = {"", "case:a", "case:b"};
 
@@ -94,9 +101,15 @@ static const char *role_of(int k, int var, int pos) {
   return "";
 }
 struct Node { int k, mode, var, parent, pos, leafno, depth; std::vector<int> ch; bool under_loop, under_switch, has_b; };
-struct Program { std::vector<Node> n; std::vector<Script> sc; bool timeout; std::string text; int nleaves; long index; int weight; };
+// timeout: 0 none, 1 on the root, 2 on the first inner composite (lane N). alt: construction variant bits derived from the program index (zero weight):
+//   Loop/Wrapper bit0 -> constructor taking the child; Repeat alt%3 -> (times,mode)+setChild | (child,times,mode) | default constructor+setTimes+setMode+setChild;
+//   IfElse bit0 -> role names "succ"/"fail"; Sequence bit0 -> default mode + setMode; LoopIf alt%3 -> default | setFinishResult(false) | setFinishResult(true);
+//   FunctionAction leaves: overload (alt/2+leafno)%4 of the four callable types; SleepAction leaves: bit0 -> Generator constructor
+struct Program { std::vector<Node> n; std::vector<Script> sc; int timeout; std::string text; int nleaves; long index; int weight; unsigned alt; int to_node; };
+static char g_lane = 'A';   // A = main family | X = library leaves + late leaves | N = nested, representative kinds | T = timeout set/withdrawn while under way
+static unsigned alt_of(long index) { return (unsigned)((((uint32_t)index + 1u) * 2654435761u) >> 13) & 0xFFu; }
 
-static std::string script_str(const Script &s) { std::string r = kOut[s.out]; if (s.out != oN) r += std::to_string((int)s.delay); if (s.msg) r += std::string(":") + (s.msg == 1 ? "a" : "b"); return r; }
+static std::string script_str(const Script &s) { std::string r = kOut[s.out]; if (s.out != oN && !lib_leaf(s.out)) r += std::to_string((int)s.delay); if (s.msg) r += std::string(":") + (s.msg == 1 ? "a" : "b"); return r; }
 static std::string head_str(int k, int mode, int var) {
   std::string h = kKind[k];
   switch (k) { case SEQ: case PAR: h += std::string(".") + kSeqMode[mode]; break; case LOOP: h += std::string(".") + kLoopMode[mode]; break;
@@ -126,6 +139,11 @@ static std::string prog_text(const Program &p, int i) {
 struct SpecT { int k, mode, var, arity; };
 static std::vector<SpecT> all_specs() {
   std::vector<SpecT> v;
+  if (g_lane == 'N') {   // one representative mode per kind, arity <= 2
+    v.push_back({SEQ, 0, 0, 2}); v.push_back({PAR, 0, 0, 2}); v.push_back({IFTHEN, 0, 1, 2}); v.push_back({LOOP, 2, 0, 1}); v.push_back({LOOPIF, 0, 0, 2});
+    v.push_back({REPEAT, 0, 2, 1}); v.push_back({WRAP, 1, 0, 1}); v.push_back({COMP, 0, 0, 1}); return v; }
+  if (g_lane == 'T') { v.push_back({SEQ, 0, 0, 2}); v.push_back({PAR, 0, 0, 2}); v.push_back({PAR, 2, 0, 2}); v.push_back({IFELSE, 0, 0, 3}); v.push_back({LOOP, 0, 0, 1}); v.push_back({REPEAT, 0, 2, 1});
+    v.push_back({WRAP, 1, 0, 1}); v.push_back({COMP, 0, 0, 1}); return v; }
   for (int m = 0; m < 3; m++) for (int a = 1; a <= 4; a++) v.push_back({SEQ, m, 0, a});
   for (int m = 0; m < 3; m++) for (int a = 1; a <= 4; a++) v.push_back({PAR, m, 0, a});
   v.push_back({IFELSE, 0, 0, 3}); v.push_back({IFELSE, 0, 1, 2}); v.push_back({IFELSE, 0, 2, 2});
@@ -162,7 +180,10 @@ static std::vector<SInfo> gen_shapes(int maxd, int maxc, int maxl, int maxw, int
 static int shape_weight(const SInfo &x) { return weight_of(x.comps, x.depth, x.leaves); }
 struct Alt { Script s; int w; };
 static std::vector<Alt> alphabet(const Node &n) {
-  std::vector<Alt> a; auto add = [&](int out, int delay, int w) { bool succ = (out != oF && out != oN); int nm = (n.under_switch && succ) ? (n.has_b ? 3 : 2) : 1; for (int m = 0; m < nm; m++) a.push_back(Alt{Script{(uint8_t)out, (uint8_t)delay, (uint8_t)m}, w}); };
+  std::vector<Alt> a; auto add = [&](int out, int delay, int w) { bool succ = (out != oF && out != oN && out != oFM && out != oLF && out != oSL /* SleepAction's reason text is fixed */); int nm = (n.under_switch && succ) ? (n.has_b ? 3 : 2) : 1; for (int m = 0; m < nm; m++) a.push_back(Alt{Script{(uint8_t)out, (uint8_t)delay, (uint8_t)m}, w}); };
+  if (g_lane == 'X') { add(oS, 0, 0); add(oF, 1, 0); add(oSL, 0, 1); add(oFP, 0, 1); add(oFM, 0, 1); add(oLS, 1, 1); add(oLF, 1, 1); return a; }
+  if (g_lane == 'N') { add(oS, 0, 0); add(oF, 1, 0); add(oB, 1, 1); if (n.under_loop) add(oFS, 0, 1); return a; }
+  if (g_lane == 'T') { add(oS, 1, 0); add(oN, 0, 1); add(oF, 1, 1); add(oSL, 0, 1); return a; }
   add(oS, 0, 0); add(oS, 1, 0); add(oF, 0, 0); add(oF, 1, 0); add(oN, 0, 1); add(oB, 1, 1);
   if (n.under_loop) { add(oSF, 0, 1); add(oSF, 1, 1); add(oFS, 0, 1); add(oFS, 1, 1); }
   add(oB, 0, 2); add(oS, 2, 2); add(oF, 2, 2); add(oB, 2, 3);
@@ -173,28 +194,32 @@ struct Family {
   std::vector<SInfo> shapes; std::vector<Program> protos; std::vector<int> sw; int maxw;
   Family(int maxd, int maxc, int mw, int mind = 0) : maxw(mw) {
     shapes = gen_shapes(maxd, maxc, 4, mw, mind);
-    for (auto &x : shapes) { Program p; p.nleaves = 0; p.timeout = false; flatten(x.s, -1, 0, 0, p, false, false, false); p.sc.assign(p.nleaves, Script{oS, 0, 0}); protos.push_back(p); sw.push_back(shape_weight(x)); }
+    for (auto &x : shapes) { Program p; p.nleaves = 0; p.timeout = 0; p.alt = 0; p.to_node = -1; flatten(x.s, -1, 0, 0, p, false, false, false); p.sc.assign(p.nleaves, Script{oS, 0, 0}); protos.push_back(p); sw.push_back(shape_weight(x)); }
     std::vector<size_t> ord(shapes.size()); for (size_t i = 0; i < ord.size(); i++) ord[i] = i;
     std::stable_sort(ord.begin(), ord.end(), [&](size_t a, size_t b) { if (sw[a] != sw[b]) return sw[a] < sw[b]; return false; });
     std::vector<Program> p2; std::vector<int> w2; for (size_t i : ord) { p2.push_back(protos[i]); w2.push_back(sw[i]); } protos.swap(p2); sw.swap(w2);
   }
-  static void set_text(Program &p) { p.text = prog_text(p, 0) + (p.timeout ? " timeout=100ms" : ""); }
+  static int to_weight() { return g_lane == 'T' ? 0 : 1; }     // lane T: with and without an initial timeout at no weight
+  static void set_text(Program &p) { p.text = prog_text(p, 0) + (p.timeout == 1 ? " timeout=100ms" : p.timeout == 2 ? " inner-timeout=100ms" : "") + " v" + std::to_string(p.alt); }
+  static bool wanted(const Program &p) {   // lane X repeats no program of lane A: at least one library / late leaf
+    if (g_lane != 'X') return true; for (auto &sc : p.sc) if (sc.out >= oSL) return true; return false; }
   long total() {    // number of programs of the family (same loops as each(), counted by convolution of the leaf alphabets' weight histograms)
-    long n = 0;
+    long n = 0; if (g_lane == 'X') { each([&](Program &) { n++; return true; }); return n; }
     for (size_t si = 0; si < protos.size(); si++) { std::vector<long> h(maxw + 1, 0); h[0] = 1;
       for (auto &nd : protos[si].n) if (nd.k == LEAF) { std::vector<long> a(4, 0); for (auto &al : alphabet(nd)) a[al.w]++; std::vector<long> h2(maxw + 1, 0); for (int i = 0; i <= maxw; i++) for (int j = 0; j < 4 && i + j <= maxw; j++) h2[i + j] += h[i] * a[j]; h.swap(h2); }
-      for (int W = 0; W <= maxw; W++) for (int to = 0; to <= 1; to++) { int rest = W - to - sw[si]; if (rest >= 0) n += h[rest]; } }
+      for (int W = 0; W <= maxw; W++) for (int to = 0; to <= 1; to++) { int rest = W - to * to_weight() - sw[si]; if (rest >= 0) n += h[rest]; } }
     return n; }
   // calls f(program) for every program in canonical order (program.text is NOT set: call set_text); f returns false to stop
   template <class F> void each(F f) {
     long index = 0; bool go = true;
     for (int W = 0; W <= maxw && go; W++) for (int to = 0; to <= 1 && go; to++) for (size_t si = 0; si < protos.size() && go; si++) {
-      int rest = W - to - sw[si]; if (rest < 0) continue;
-      Program p = protos[si]; p.timeout = to; p.weight = W;
+      int rest = W - to * to_weight() - sw[si]; if (rest < 0) continue;
+      Program p = protos[si]; p.timeout = to ? (g_lane == 'N' ? 2 : 1) : 0; p.weight = W;
+      p.to_node = -1; if (p.timeout == 1) p.to_node = 0; else if (p.timeout == 2) for (size_t i = 1; i < p.n.size(); i++) if (p.n[i].k != LEAF) { p.to_node = (int)i; break; }
       std::vector<std::vector<Alt>> alts; for (auto &n : p.n) if (n.k == LEAF) alts.push_back(alphabet(n));
       std::function<void(int, int)> rec = [&](int li, int left) {
         if (!go) return;
-        if (li == p.nleaves) { if (left != 0) return; p.index = index++; go = f(p); return; }
+        if (li == p.nleaves) { if (left != 0 || !wanted(p)) return; p.index = index++; p.alt = alt_of(p.index); go = f(p); return; }
         for (auto &a : alts[li]) { if (a.w > left) continue; p.sc[li] = a.s; rec(li + 1, left - a.w); if (!go) return; } };
       rec(0, rest); }
   }
@@ -208,10 +233,23 @@ struct ProbeLeaf : Action {
   ProbeLeaf(event::Loop &l, World *w_, int ni_, Script s) : Action(l, "Probe"), w(w_), ni(ni_), sc(s) {}
   bool isReady() const override { return true; }
   void onStart() override; void onResume() override; void onStop() override; void onReset() override; void onFinal() override;
+  bool late() const { return sc.out == oLS || sc.out == oLF; }
   void arm(int d) { if (d == 0) fire(); else remaining = d; }
-  void tick() { if (remaining > 0 && state() == St::kRunning) { if (--remaining == 0) fire(); } }
+  // a late leaf's completion is outside the action's control: it arrives also when the leaf has been paused or stopped meanwhile (not after a reset:
+  // the base class accepts finish() on an idle action, a leaf that completes an action it was told to forget is outside the property)
+  bool pending() const { return remaining > 0 && (state() == St::kRunning || (late() && state() != St::kIdle)); }
+  void tick() { if (pending()) { if (--remaining == 0) fire(); } }
   void fire();
 };
+// Every library class in the tree is instantiated as Tap<T>: the protected life-cycle hooks announce themselves to the observer before delegating, so inner
+// composites and library leaves get the same run/epoch bookkeeping as the root and the probe leaves (the oracle does not read their state to find run boundaries).
+template <class T> struct Tap : T {
+  World *w = nullptr; int ni = -1;
+  using T::T;
+  void onStart() override; void onStop() override; void onReset() override;
+  void onFinished(bool ok, const Action::Reason &r, const Action::Trace &t) override;
+};
+template <class T> struct LeafTap : Tap<T> { using Tap<T>::Tap; void onFinal() override; };
 
 // RULES (reference step function of every composite = its header pseudo-code read together with the pinned tests):
 //  Sequence   children in index order; stops at the first success (AnySucc) / failure (AnyFail); result = result of the LAST EXECUTED
@@ -246,6 +284,8 @@ struct World {
   std::vector<Action *> act; std::vector<ProbeLeaf *> leaf;
   std::vector<Action::FinishCallback> of; std::vector<Action::BlockCallback> ob;
   std::vector<int> ep, finals, fdeliv; std::vector<char> epwhy, by_timeout; std::vector<Mon> mon;
+  std::vector<char> live, to_conf; std::vector<long long> t_arm;   // model: run of node i under way | a timeout is configured on node i | instant of the node's last start / set-timeout
+  bool destroyed = false;
   std::string trace, viol; bool quiet_trace = false;
   std::string end_status;
 
@@ -260,43 +300,68 @@ struct World {
   static const char *sname(St s) { static const char *n[] = {"idle", "running", "pause", "finished", "stoped"}; return n[(int)s]; }
   static bool underway(St s) { return s == St::kRunning || s == St::kPause; }
 
+  template <class T> T *tap(T *a, int i) { a->w = this; a->ni = i; return a; }
   Action *mk(int i) {
-    const Node &n = P.n[i]; Action *a = nullptr;
+    const Node &n = P.n[i]; Action *a = nullptr; unsigned alt = P.alt; event::Loop &L = *g_loop;
     switch (n.k) {
-      case LEAF: { auto *l = new ProbeLeaf(*g_loop, this, i, P.sc[n.leafno]); leaf[i] = l; a = l; } break;
-      case SEQ: { auto *s = new SequenceAction(*g_loop, (SequenceAction::Mode)n.mode); a = s; for (int c : n.ch) s->addChild(mk(c)); } break;
-      case PAR: { auto *s = new ParallelAction(*g_loop, (ParallelAction::Mode)n.mode); a = s; for (int c : n.ch) s->addChild(mk(c)); } break;
-      case IFELSE: { auto *s = new IfElseAction(*g_loop); a = s; for (size_t c = 0; c < n.ch.size(); c++) s->setChildAs(mk(n.ch[c]), role_of(n.k, n.var, (int)c)); } break;
-      case IFTHEN: { auto *s = new IfThenAction(*g_loop); a = s; for (size_t c = 0; c < n.ch.size(); c++) s->addChildAs(mk(n.ch[c]), role_of(n.k, n.var, (int)c)); } break;
-      case SWITCH: { auto *s = new SwitchAction(*g_loop); a = s; for (size_t c = 0; c < n.ch.size(); c++) s->setChildAs(mk(n.ch[c]), role_of(n.k, n.var, (int)c)); } break;
-      case LOOP: { auto *s = new LoopAction(*g_loop, (LoopAction::Mode)n.mode); a = s; s->setChild(mk(n.ch[0])); } break;
-      case LOOPIF: { auto *s = new LoopIfAction(*g_loop); a = s; s->setChildAs(mk(n.ch[0]), "if"); s->setChildAs(mk(n.ch[1]), "exec"); } break;
-      case REPEAT: { auto *s = new RepeatAction(*g_loop, (size_t)n.var, (RepeatAction::Mode)n.mode); a = s; s->setChild(mk(n.ch[0])); } break;
-      case WRAP: { auto *s = new WrapperAction(*g_loop, (WrapperAction::Mode)n.mode); a = s; s->setChild(mk(n.ch[0])); } break;
-      case COMP: { auto *s = new CompositeAction(*g_loop, "Composite"); a = s; s->setChild(mk(n.ch[0])); } break;
+      case LEAF: { const Script sc = P.sc[n.leafno];
+        if (sc.out == oSL) { a = (alt & 1) ? tap(new LeafTap<SleepAction>(L, SleepAction::Generator([] { return std::chrono::milliseconds(SLEEP_MS); })), i) : tap(new LeafTap<SleepAction>(L, std::chrono::milliseconds(SLEEP_MS)), i); }
+        else if (sc.out == oFP || sc.out == oFM) { bool ok = sc.out == oFP; std::string msg = kMsg[sc.msg]; unsigned ov = (alt / 2 + (unsigned)n.leafno) % 4; if (sc.msg && (ov == 0 || ov == 2)) ov++;   // only the overloads taking a Reason can name a Switch case
+          if (ov == 0) a = tap(new LeafTap<FunctionAction>(L, FunctionAction::Func([ok] { return ok; })), i);
+          else if (ov == 1) a = tap(new LeafTap<FunctionAction>(L, FunctionAction::FuncWithReason([ok, msg](Action::Reason &r) { r.message = msg; return ok; })), i);
+          else if (ov == 2) a = tap(new LeafTap<FunctionAction>(L, FunctionAction::FuncWithVars([ok](util::Variables &) { return ok; })), i);
+          else a = tap(new LeafTap<FunctionAction>(L, FunctionAction::FuncWithReasonVars([ok, msg](Action::Reason &r, util::Variables &) { r.message = msg; return ok; })), i); }
+        else { auto *l = new ProbeLeaf(L, this, i, sc); leaf[i] = l; a = l; } } break;
+      case SEQ: { Tap<SequenceAction> *s; if (alt & 1) { s = tap(new Tap<SequenceAction>(L), i); s->setMode((SequenceAction::Mode)n.mode); } else s = tap(new Tap<SequenceAction>(L, (SequenceAction::Mode)n.mode), i);
+        a = s; for (int c : n.ch) s->addChild(mk(c)); } break;
+      case PAR: { auto *s = tap(new Tap<ParallelAction>(L, (ParallelAction::Mode)n.mode), i); a = s; for (int c : n.ch) s->addChild(mk(c)); } break;
+      case IFELSE: { auto *s = tap(new Tap<IfElseAction>(L), i); a = s; for (size_t c = 0; c < n.ch.size(); c++) { std::string ro = role_of(n.k, n.var, (int)c); if (alt & 1) { if (ro == "then") ro = "succ"; else if (ro == "else") ro = "fail"; } s->setChildAs(mk(n.ch[c]), ro); } } break;
+      case IFTHEN: { auto *s = tap(new Tap<IfThenAction>(L), i); a = s; for (size_t c = 0; c < n.ch.size(); c++) s->addChildAs(mk(n.ch[c]), role_of(n.k, n.var, (int)c)); } break;
+      case SWITCH: { auto *s = tap(new Tap<SwitchAction>(L), i); a = s; for (size_t c = 0; c < n.ch.size(); c++) s->setChildAs(mk(n.ch[c]), role_of(n.k, n.var, (int)c)); } break;
+      case LOOP: { if (alt & 1) a = tap(new Tap<LoopAction>(L, mk(n.ch[0]), (LoopAction::Mode)n.mode), i); else { auto *s = tap(new Tap<LoopAction>(L, (LoopAction::Mode)n.mode), i); a = s; s->setChild(mk(n.ch[0])); } } break;
+      case LOOPIF: { auto *s = tap(new Tap<LoopIfAction>(L), i); a = s; s->setChildAs(mk(n.ch[0]), "if"); s->setChildAs(mk(n.ch[1]), "exec"); if (alt % 3 == 1) s->setFinishResult(false); else if (alt % 3 == 2) s->setFinishResult(true); } break;
+      case REPEAT: { if (alt % 3 == 1) a = tap(new Tap<RepeatAction>(L, mk(n.ch[0]), (size_t)n.var, (RepeatAction::Mode)n.mode), i);
+        else if (alt % 3 == 2) { auto *s = tap(new Tap<RepeatAction>(L), i); a = s; s->setTimes((size_t)n.var); s->setMode((RepeatAction::Mode)n.mode); s->setChild(mk(n.ch[0])); }
+        else { auto *s = tap(new Tap<RepeatAction>(L, (size_t)n.var, (RepeatAction::Mode)n.mode), i); a = s; s->setChild(mk(n.ch[0])); } } break;
+      case WRAP: { if (alt & 1) a = tap(new Tap<WrapperAction>(L, mk(n.ch[0]), (WrapperAction::Mode)n.mode), i); else { auto *s = tap(new Tap<WrapperAction>(L, (WrapperAction::Mode)n.mode), i); a = s; s->setChild(mk(n.ch[0])); } } break;
+      case COMP: { auto *s = tap(new Tap<CompositeAction>(L, "Composite"), i); a = s; s->setChild(mk(n.ch[0])); } break;
     }
     act[i] = a; return a;
   }
+  bool isSleep(int i) const { return P.n[i].k == LEAF && P.sc[P.n[i].leafno].out == oSL; }
+  int loopIfResult() const { return P.alt % 3 == 1 ? R_FALSE : R_TRUE; }
   void install(int i) {   // observer callbacks carrying the node's current epoch
     int tag = ep[i];
     act[i]->setFinishCallback([this, i, tag](bool ok, const Action::Reason &r, const Action::Trace &t) { finishDelivered(i, tag, ok, r, t); });
     act[i]->setBlockCallback([this, i, tag](const Action::Reason &r, const Action::Trace &t) { blockDelivered(i, tag, r, t); });
   }
   void bump(int i, char why) { ep[i]++; epwhy[i] = why; install(i); }
-  void build() {
+  void build(int root_timeout = -1) {    // root_timeout: -1 = as the program says, 0/1 = without/with a timeout on the root (fresh twin of a tree whose timeout was changed by an op)
     vnow = 1000000; Action::_id_alloc_counter_ = 0;
     act.assign(N, nullptr); leaf.assign(N, nullptr); of.resize(N); ob.resize(N); ep.assign(N, 0); finals.assign(N, 0); fdeliv.assign(N, 0); epwhy.assign(N, ' '); by_timeout.assign(N, 0); mon.assign(N, Mon());
+    live.assign(N, 0); to_conf.assign(N, 0); t_arm.assign(N, 0);
     root = mk(0);
     for (int i = 0; i < N; i++) { if (i > 0) { of[i] = act[i]->finish_cb_; ob[i] = act[i]->block_cb_; } install(i);
       if (P.n[i].k != LEAF) static_cast<AssembleAction *>(act[i])->setFinalCallback([this, i] { finalHook(i); }); }
-    if (P.timeout) root->setTimeout(std::chrono::milliseconds(T_MS));
+    if (P.to_node > 0) { act[P.to_node]->setTimeout(std::chrono::milliseconds(T_MS)); to_conf[P.to_node] = 1; }
+    if (root_timeout < 0 ? P.to_node == 0 : root_timeout == 1) { root->setTimeout(std::chrono::milliseconds(T_MS)); to_conf[0] = 1; }
     if (!root->isReady()) V("harness-tree-not-ready", "");
   }
-  void destroy() { delete root; root = nullptr; g_cl->run_next_func_queue_.clear(); g_cl->tmp_func_queue_.clear(); }
+  static void scrub() { g_cl->run_next_func_queue_.clear(); g_cl->tmp_func_queue_.clear(); g_cl->timer_min_heap_.clear(); }
+  void destroy() { destroyed = true; delete root; root = nullptr; scrub(); }
+  // destruction at an arbitrary moment (what ActionExecutor::cancel does): whatever the tree had queued or armed must be withdrawn by the destructors;
+  // the loop then runs what is left. A notification that still arrives is stale, a task that touches the freed tree is reported by ASan.
+  void destroyLive() {
+    destroyed = true; trace += "destroy: "; delete root; root = nullptr;
+    for (int r = 0; r < 3 && viol.empty(); r++) {
+      if (!g_cl->timer_min_heap_.empty()) { V("timer-left-armed-after-destroy", "the destroyed tree left " + std::to_string(g_cl->timer_min_heap_.size()) + " timer(s) armed on the loop"); break; }
+      g_cl->handleNextFunc(); }
+    scrub();
+  }
 
   // ---------------------------------------------------------------- monitors (result oracle)
   std::string exp_str(const Mon &m) { char b[64]; const char *t[] = {"wait-for-child", "start-child", "start-all-children", "finish"}; snprintf(b, sizeof b, "%s(child=%d,result=%s)", t[m.exp], m.ec, m.er == R_ANY ? "any" : m.er ? "true" : "false"); return b; }
-  void nodeStart(int i) { finals[i] = 0; fdeliv[i] = 0; by_timeout[i] = 0; Mon m; m.started = true; const Node &n = P.n[i];
+  void nodeStart(int i) { finals[i] = 0; fdeliv[i] = 0; by_timeout[i] = 0; t_arm[i] = vnow; Mon m; m.started = true; const Node &n = P.n[i];
     if (n.k == PAR) { m.exp = E_ALL; m.k = 0; } else if (n.k != LEAF) { m.exp = E_START; m.ec = 0; } if (n.k == REPEAT) m.remain = n.var - 1; mon[i] = m; }
   void monChildStart(int i, int pos) { Mon &m = mon[i];
     if (m.exp == E_START && m.ec == pos) { m.exp = E_NONE; m.cur = pos; return; }
@@ -317,7 +382,7 @@ struct World {
           for (int c = 1; c < nch; c++) { std::string ro = role_of(n.k, n.var, c); if (ro == "default") dflt = c; else if (ro == msg) tgt = c; }
           if (tgt < 0) tgt = dflt; if (tgt < 0) fin(R_FALSE); else start(tgt); } else fin(ok); break;
       case LOOP: if ((n.mode == 2 && ok) || (n.mode == 1 && !ok)) fin(R_ANY); else start(0); break;
-      case LOOPIF: if (pos == 0) { if (ok) start(1); else fin(R_TRUE); } else start(0); break;
+      case LOOPIF: if (pos == 0) { if (ok) start(1); else fin(loopIfResult()); } else start(0); break;
       case REPEAT: if ((n.mode == 2 && ok) || (n.mode == 1 && !ok)) fin(ok); else if (m.remain > 0) { m.remain--; start(0); } else fin(n.mode == 0 ? R_TRUE : R_ANY); break;
       case WRAP: fin(n.mode == 0 ? ok : n.mode == 1 ? !ok : n.mode == 2 ? R_TRUE : R_FALSE); break;
       case COMP: fin(ok); break;
@@ -325,37 +390,37 @@ struct World {
   }
 
   // ---------------------------------------------------------------- observation points
-  void leafStart(int ni) {
-    tr("S%d", ni);
-    if (leaf[ni]->active) V("child-started-again-while-previous-run-underway", "leaf " + std::to_string(ni));
-    // ancestors whose state is still idle are inside their own start(): the whole chain is being started synchronously
-    // (a Parallel starts several children inside one start(): only its first child announces the Parallel's own start to the levels above)
-    std::vector<std::pair<int, int>> pairs; int c = ni;
-    while (P.n[c].parent >= 0) { int p = P.n[c].parent; pairs.push_back(std::make_pair(p, c)); if (act[p]->state() != St::kIdle || P.n[c].pos != 0) break; c = p; }
-    for (int j = (int)pairs.size() - 1; j >= 0; j--) { int n = pairs[j].first, pos = P.n[pairs[j].second].pos;
-      if (act[n]->state() == St::kIdle && pos == 0) nodeStart(n);
-      monChildStart(n, pos); }
-    nodeStart(ni);
+  // life-cycle hooks (Tap<T> / ProbeLeaf call them from inside the library's start()/stop()/reset()/finish())
+  void hookStart(int i) {
+    bool isleaf = P.n[i].k == LEAF; if (isleaf) tr("S%d", i);
+    if (live[i]) V("child-started-again-while-previous-run-underway", std::string(isleaf ? "leaf " : "node ") + std::to_string(i));
+    live[i] = 1;
+    if (P.n[i].parent >= 0) monChildStart(P.n[i].parent, P.n[i].pos);
+    nodeStart(i);
   }
+  void hookStop(int i) { live[i] = 0; bump(i, 's'); }
+  void hookReset(int i) { live[i] = 0; bump(i, 'r'); }
+  void hookFinished(int i, bool ok) { live[i] = 0; if (P.n[i].k == LEAF) tr(ok ? "f%d+" : "f%d-", i); }
   void finishDelivered(int i, int tag, bool ok, const Action::Reason &r, const Action::Trace &t) {
+    if (destroyed) { V("notification-delivered-after-destroy", "finish notification of node " + std::to_string(i) + " runs after the tree was destroyed"); return; }
     tr(ok ? "F%d+" : "F%d-", i);
-    bool tagged = (i == 0 || leaf[i] != nullptr); std::string where = i == 0 ? "" : "-inner";
-    if (tagged) { if (tag != ep[i]) V(std::string("stale-finish-notification-after-") + (epwhy[i] == 's' ? "stop" : "reset") + where, "node " + std::to_string(i) + " delivered the finish notification of an earlier run"); }
-    else if (act[i]->state() != St::kFinished) V("stale-finish-notification-after-reset-inner", "node " + std::to_string(i) + " is " + sname(act[i]->state()) + " when its finish notification is delivered");
+    std::string where = i == 0 ? "" : "-inner";
+    if (tag != ep[i]) V(std::string("stale-finish-notification-after-") + (epwhy[i] == 's' ? "stop" : "reset") + where, "node " + std::to_string(i) + " delivered the finish notification of an earlier run");
     if (++fdeliv[i] > 1) V(i == 0 ? "root-finish-callback-more-than-once-per-run" : "finish-notification-delivered-twice-per-run", "node " + std::to_string(i));
     if (i == 0) { if (root->state() == St::kFinished && ok != (root->result() == Action::Result::kSuccess)) V("root-finish-callback-disagrees-with-result", ""); }
     else { int p = P.n[i].parent; St ps = act[p]->state(); if (underway(ps) && viol.empty()) monChildFinish(p, P.n[i].pos, ok, r.message, ps == St::kPause); if (of[i]) of[i](ok, r, t); }
     scan();
   }
   void blockDelivered(int i, int tag, const Action::Reason &r, const Action::Trace &t) {
+    if (destroyed) { V("notification-delivered-after-destroy", "block notification of node " + std::to_string(i) + " runs after the tree was destroyed"); return; }
     tr("B%d", i);
-    bool tagged = (i == 0 || leaf[i] != nullptr); std::string where = i == 0 ? "" : "-inner";
-    if (tagged) { if (tag != ep[i]) V(std::string("stale-block-notification-after-") + (epwhy[i] == 's' ? "stop" : "reset") + where, "node " + std::to_string(i) + " delivered the block notification of a run that was " + (epwhy[i] == 's' ? "stopped" : "reset")); }
-    else { St s = act[i]->state(); if (s == St::kStoped) V("stale-block-notification-after-stop-inner", "node " + std::to_string(i)); else if (s == St::kIdle) V("stale-block-notification-after-reset-inner", "node " + std::to_string(i)); }
+    std::string where = i == 0 ? "" : "-inner";
+    if (tag != ep[i]) V(std::string("stale-block-notification-after-") + (epwhy[i] == 's' ? "stop" : "reset") + where, "node " + std::to_string(i) + " delivered the block notification of a run that was " + (epwhy[i] == 's' ? "stopped" : "reset"));
     if (i > 0 && ob[i]) ob[i](r, t);
     scan();
   }
   void finalHook(int i) {
+    if (destroyed) return;
     tr("X%d", i); St s = act[i]->state();
     if (s != St::kFinished && s != St::kStoped) V("final-hook-in-wrong-state", "node " + std::to_string(i) + " " + sname(s));
     if (++finals[i] > 1) V("final-hook-more-than-once-per-run", "node " + std::to_string(i));
@@ -379,21 +444,31 @@ struct World {
   void snapshot() { if (quiet_trace) return; trace += '|'; for (int i = 0; i < N; i++) { trace += sc(act[i]->state()); trace += "usf"[(int)act[i]->result()]; } trace += ' '; }
 
   // ---------------------------------------------------------------- operations
-  bool timerDue() { auto *t = root->timer_ev_; return t && t->isEnabled() && !g_cl->timer_min_heap_.empty() && (long long)g_cl->timer_min_heap_.front()->expired <= vnow; }
-  bool timerArmed() { auto *t = root->timer_ev_; return t && t->isEnabled() && !timerDue(); }
+  // timers: every timer of the loop belongs to the tree (action timeouts, SleepAction)
+  static long long heapMin() { return g_cl->timer_min_heap_.empty() ? -1 : (long long)g_cl->timer_min_heap_.front()->expired; }
+  bool timerDue() { long long m = heapMin(); return m >= 0 && m <= vnow; }
+  bool timerArmed() { long long m = heapMin(); return m >= 0 && m > vnow; }
+  static long long expiry(event::TimerEvent *t) {   // -1: no timer / not armed
+    if (!t || !t->isEnabled()) return -1; auto *ti = static_cast<event::TimerEventImpl *>(t); auto *tm = g_cl->timer_cabinet_.at(ti->token_); return tm ? (long long)tm->expired : -2; }
+  long long sleepExpiry() { long long m = -1; for (int i = 0; i < N; i++) if (isSleep(i)) { long long e = expiry(static_cast<SleepAction *>(act[i])->timer_); if (e >= 0 && (m < 0 || e < m)) m = e; } return m; }
   void pass() {
     g_loop->runNext([this] { for (int i = 0; i < N; i++) if (leaf[i]) leaf[i]->tick(); scan(); });   // leaf completions happen inside the loop, after the already queued notifications
-    St before = root->state();
+    std::vector<char> before(N); for (int i = 0; i < N; i++) before[i] = (char)act[i]->state();
     g_cl->handleExpiredTimers();
-    if (root->state() == St::kFinished && before != St::kFinished) { by_timeout[0] = 1; tr("TIMEOUT"); }
+    // a composite that finishes inside the timer phase can only have been finished by its own timeout (child notifications travel through the task queue).
+    // The model is deliberately permissive about WHEN (pause/resume/block re-arm details are not documented): a timeout must be configured on that
+    // node and at least the full span must have passed since the run started / the timeout was set; a withdrawn timeout must never fire.
+    for (int i = 0; i < N && viol.empty(); i++) if (P.n[i].k != LEAF && act[i]->state() == St::kFinished && before[i] != (char)St::kFinished) {
+      if (to_conf[i] && vnow - t_arm[i] >= T_MS) { by_timeout[i] = 1; if (i == 0) tr("TIMEOUT"); else tr("TIMEOUT%d", i); }
+      else V("timeout-fires-although-not-armed", "node " + std::to_string(i) + " was finished from a timer callback; timeout configured=" + std::to_string((int)to_conf[i]) + ", " + std::to_string(vnow - t_arm[i]) + " ms after its run started / the timeout was set"); }
     scan();
     if (!stale_ids.empty()) for (auto &it : g_cl->run_next_func_queue_) if (stale_ids.count(it.id)) stale_replay_ran = true;
     g_cl->handleNextFunc();
     scan();
   }
-  enum { O_START, O_PAUSE, O_RESUME, O_STOP, O_RESET, O_PASS, O_ADV };
+  enum { O_START, O_PAUSE, O_RESUME, O_STOP, O_RESET, O_PASS, O_ADV, O_SETTO, O_RSTTO };
   void op(int o) {
-    static const char *n[] = {"start", "pause", "resume", "stop", "reset", "pass", "advance"};
+    static const char *n[] = {"start", "pause", "resume", "stop", "reset", "pass", "advance", "set-timeout", "reset-timeout"};
     trace += n[o]; trace += ": ";
     switch (o) {
       case O_START: root->start(); break;
@@ -405,12 +480,14 @@ struct World {
         for (int i = 0; i < N && viol.empty(); i++) if (act[i]->state() != St::kIdle || act[i]->result() != Action::Result::kUnsure) V("reset-leaves-node-not-idle", "node " + std::to_string(i) + " " + sname(act[i]->state()));
         break;
       case O_PASS: pass(); break;
-      case O_ADV: vnow += T_MS; break;
+      case O_ADV: { long long m = heapMin(); if (m > vnow) vnow = m; } break;    // to the instant of the earliest armed timer (root/inner timeout, SleepAction)
+      case O_SETTO: root->setTimeout(std::chrono::milliseconds(T_MS)); to_conf[0] = 1; t_arm[0] = vnow; break;
+      case O_RSTTO: root->resetTimeout(); to_conf[0] = 0; break;
     }
     scan(); snapshot();
   }
   bool queueEmpty() { return g_cl->run_next_func_queue_.empty(); }
-  bool quiescent() { if (!queueEmpty() || timerDue()) return false; for (int i = 0; i < N; i++) if (leaf[i] && leaf[i]->remaining > 0 && leaf[i]->state() == St::kRunning) return false; return true; }
+  bool quiescent() { if (!queueEmpty() || timerDue()) return false; for (int i = 0; i < N; i++) if (leaf[i] && leaf[i]->pending()) return false; return true; }
 
   // calls the base class answers without doing anything in the current state must leave everything unchanged
   void probes() {
@@ -430,7 +507,8 @@ struct World {
   void explain(int i) {   // node i is under way and nothing is pending anywhere: it must be waiting for a `never` leaf
     if (!viol.empty()) return; St s = act[i]->state(); const Node &n = P.n[i]; std::string ni = "node " + std::to_string(i) + "(" + kKind[n.k] + ")";
     if (s == St::kPause) { V("descendant-left-paused-while-root-running", ni); return; }
-    if (n.k == LEAF) { if (leaf[i]->what != 0) V("harness-leaf-running-but-not-armed", ni); return; }
+    if (n.k == LEAF) { if (isSleep(i)) V("sleep-leaf-under-way-but-its-timer-is-not-armed", ni + " can never complete");
+      else if (!leaf[i] || leaf[i]->what != 0) V("harness-leaf-running-but-not-armed", ni); return; }
     Mon &m = mon[i];
     if (m.exp != E_NONE) { if (n.k == PAR && m.dwp && m.exp == E_FIN) V("parallel-drops-child-finish-while-paused", ni + " got a child's finish notification while paused and never accounts for it: all documented conditions to finish hold, nothing is pending, state=running");
       else V(std::string(kKindLc[n.k]) + "-stuck-documented-step-not-performed", ni + " documented next step " + exp_str(m) + " was never performed, nothing is pending"); return; }
@@ -446,12 +524,12 @@ struct World {
     for (; k < K && viol.empty(); k++) {
       if (!root->isUnderway()) break;
       if (root->state() == St::kPause) { trace += "resume "; root->resume(); scan(); if (!viol.empty() || !root->isUnderway()) break; }
-      if (quiescent()) { stuck = true; break; }
+      if (quiescent()) { long long se = sleepExpiry(); if (se < 0) { stuck = true; break; } if (se > vnow) vnow = se; }   // only a sleeping SleepAction is waited for (a pending timeout is not: `never` leaves must stay visible)
       pass();          // (no per-pass snapshot in the drain: a pass that runs a deferred task without any observable effect must not count as a difference)
     }
     if (!viol.empty()) return;
     if (!root->isUnderway()) {
-      for (int j = 0; j < 6 && viol.empty() && !quiescent(); j++) pass();    // flush what is still queued (root finish callback, stale notifications)
+      for (int j = 0; j < 8 && viol.empty() && !quiescent(); j++) pass();    // flush what is still queued (root finish callback, stale notifications)
       snapshot();
       if (!viol.empty()) return;
       if (root->state() == St::kFinished && fdeliv[0] != 1) V("root-finish-callback-not-delivered-exactly-once", "delivered " + std::to_string(fdeliv[0]) + " times, root finished");
@@ -464,46 +542,57 @@ struct World {
   std::string canon_impl() {
     std::string c; char b[96];
     for (int i = 0; i < N; i++) { const Node &n = P.n[i]; Action *a = act[i]; c += sc(a->state()); c += "usf"[(int)a->result()];
-      if (n.k == LEAF) { ProbeLeaf *l = leaf[i]; bool flip = l->sc.out == oSF || l->sc.out == oFS; snprintf(b, sizeof b, "%d%d%d%d%d", l->remaining, l->what, (int)l->blocked, (int)l->active, flip ? std::min(l->runs, 1) : 0); c += b; }
+      if (n.k == LEAF && !leaf[i]) { if (isSleep(i)) { auto *sl = static_cast<SleepAction *>(a); long long e = expiry(sl->timer_); snprintf(b, sizeof b, "t%lld", e < 0 ? e : e - vnow); c += b; if (a->state() == St::kPause) { snprintf(b, sizeof b, "r%lld", (long long)sl->remain_time_span_.count()); c += b; } } }
+      else if (n.k == LEAF) { ProbeLeaf *l = leaf[i]; bool flip = l->sc.out == oSF || l->sc.out == oFS; snprintf(b, sizeof b, "%d%d%d%d%d", l->remaining, l->what, (int)l->blocked, (int)l->active, flip ? std::min(l->runs, 1) : 0); c += b; }
       else if (n.k == PAR) { for (auto &kv : static_cast<ParallelAction *>(a)->finished_children_) { snprintf(b, sizeof b, "%d%c", kv.first, kv.second ? '+' : '-'); c += b; } }
       else { auto *s = static_cast<SerialAssembleAction *>(a); int cur = -1; for (size_t k = 0; k < n.ch.size(); k++) if (act[n.ch[k]] == s->curr_action_) cur = (int)k; if (s->curr_action_ && cur < 0) cur = 9;
         long extra = n.k == SEQ ? (long)static_cast<SequenceAction *>(a)->index_ : n.k == IFTHEN ? (long)static_cast<IfThenAction *>(a)->index_ : n.k == REPEAT ? (long)std::min<size_t>(static_cast<RepeatAction *>(a)->remain_times_, 9) : 0;
         snprintf(b, sizeof b, "c%d%c%ld", cur, s->child_finish_func_ ? 'h' : '.', extra); c += b; }
+      if (a->timer_ev_) { long long e = expiry(a->timer_ev_); snprintf(b, sizeof b, "T%lld", e < 0 ? e : e - vnow); c += b; }
       c += ','; }
     c += "Q:"; for (auto &it : g_cl->run_next_func_queue_) { c += it.what.empty() ? "anon" : it.what; c += ';'; }
-    auto *t = root->timer_ev_; c += t ? (t->isEnabled() ? (timerDue() ? "TD" : "TE") : "Td") : "T-";
     return c;
   }
   std::string canon() {
     std::string c = canon_impl(); char b[96]; c += "#";
-    for (int i = 0; i < N; i++) { Mon &m = mon[i]; snprintf(b, sizeof b, "%d%d%d%d%d%d%d%d%d%d%d%d%d%d%d;", m.exp, m.ec + 1, m.er, m.cur + 1, m.remain, m.k, m.rec[0], m.rec[1], m.rec[2], m.rec[3], (int)m.dwp, (int)m.done, std::min(finals[i], 2), std::min(fdeliv[i], 2), (int)by_timeout[i]); c += b; }
+    for (int i = 0; i < N; i++) { Mon &m = mon[i]; snprintf(b, sizeof b, "%d%d%d%d%d%d%d%d%d%d%d%d%d%d%d;", m.exp, m.ec + 1, m.er, m.cur + 1, m.remain, m.k, m.rec[0], m.rec[1], m.rec[2], m.rec[3], (int)m.dwp, (int)m.done, std::min(finals[i], 2), std::min(fdeliv[i], 2), (int)by_timeout[i]); c += b;
+      c += live[i] ? 'L' : '.'; if (to_conf[i]) c += (vnow - t_arm[i] >= T_MS) ? "C+" : "C-"; }
     return c;
   }
 };
 
 void ProbeLeaf::onStart() {
-  Action::onStart(); w->leafStart(ni);
+  Action::onStart(); w->hookStart(ni);
   active = true; blocked = false; runs++;
-  int o = sc.out; if (o == oSF) o = runs == 1 ? oS : oF; else if (o == oFS) o = runs == 1 ? oF : oS;
+  int o = sc.out; if (o == oSF) o = runs == 1 ? oS : oF; else if (o == oFS) o = runs == 1 ? oF : oS; else if (o == oLS) o = oS; else if (o == oLF) o = oF;
   what = o == oS ? 1 : o == oF ? 2 : o == oB ? 3 : 0; remaining = -1;
   if (what) arm(sc.delay);
 }
 void ProbeLeaf::fire() {
   remaining = -1; int wh = what;
   if (wh == 3) { blocked = true; what = 1; w->tr("b%d", ni); block(Reason(1000, "probe-block")); }
-  else { active = false; w->tr(wh == 1 ? "f%d+" : "f%d-", ni); finish(wh == 1, Reason(1001, kMsg[sc.msg])); }
+  else { St before = state(); bool over = before == St::kStoped || before == St::kFinished;   // only a late leaf gets here when its run is over
+    active = false; if (!over) w->live[ni] = 0; w->tr(wh == 1 ? "f%d+" : "f%d-", ni); bool acc = finish(wh == 1, Reason(1001, kMsg[sc.msg]));
+    if (over && (acc || state() != before)) w->V("finish-accepted-after-the-run-was-over", "leaf " + std::to_string(ni) + " called finish() while " + World::sname(before) + ": returned " + (acc ? "true" : "false") + ", state now " + World::sname(state()));
+    if (!over && !acc) w->V("finish-refused-while-under-way", "leaf " + std::to_string(ni) + " called finish() while " + World::sname(before)); }
 }
 void ProbeLeaf::onResume() { Action::onResume(); if (blocked) { blocked = false; arm(sc.delay); } }
-void ProbeLeaf::onStop() { remaining = -1; blocked = false; active = false; w->bump(ni, 's'); Action::onStop(); }
-void ProbeLeaf::onReset() { remaining = -1; blocked = false; active = false; w->bump(ni, 'r'); Action::onReset(); }
+void ProbeLeaf::onStop() { if (!late()) remaining = -1; blocked = false; active = false; w->hookStop(ni); Action::onStop(); }
+void ProbeLeaf::onReset() { remaining = -1; blocked = false; active = false; w->hookReset(ni); Action::onReset(); }
 void ProbeLeaf::onFinal() { w->finalHook(ni); }
+template <class T> void Tap<T>::onStart() { w->hookStart(ni); T::onStart(); }
+template <class T> void Tap<T>::onStop() { w->hookStop(ni); T::onStop(); }
+template <class T> void Tap<T>::onReset() { w->hookReset(ni); T::onReset(); }
+template <class T> void Tap<T>::onFinished(bool ok, const Action::Reason &r, const Action::Trace &t) { w->hookFinished(ni, ok); T::onFinished(ok, r, t); }
+template <class T> void LeafTap<T>::onFinal() { this->w->finalHook(this->ni); T::onFinal(); }
 
 // ------------------------------------------------------------------------------------------------ exploration
 struct Op { int k; };
-static const char *kOp[] = {"start", "pause", "resume", "stop", "reset", "pass", "advance-timeout"};
-struct HInfo { uint8_t state, quiescent, queue_empty, timer_armed; };
+static const char *kOp[] = {"start", "pause", "resume", "stop", "reset", "pass", "advance-timeout", "set-timeout", "reset-timeout"};
+static const int N_OPS = 9;
+struct HInfo { uint8_t state, quiescent, queue_empty, timer_armed, to_conf, pending; };
 static double g_deadline = 1e18; static bool g_stop = false; static long g_evals = 0;
-static long T_states = 0, T_trans = 0, T_exec = 0, T_viol = 0, T_redet = 0, T_programs = 0, T_fix = 0, T_diff = 0, T_maxdepth = 0;
+static long T_states = 0, T_trans = 0, T_exec = 0, T_viol = 0, T_redet = 0, T_programs = 0, T_fix = 0, T_diff = 0, T_maxdepth = 0, T_destroy = 0;
 
 static std::string hist_text(const std::vector<Op> &h) { std::string s; for (auto &o : h) { if (!s.empty()) s += ' '; s += kOp[o.k]; } return s.empty() ? "<empty>" : s; }
 static void report(const Program &P, const std::vector<Op> &h, const std::string &viol, const std::string &trace) {
@@ -517,29 +606,44 @@ static void report(const Program &P, const std::vector<Op> &h, const std::string
 // evaluate one history on a fresh tree; returns the canonical state after the history (before the drain)
 static std::string evaluate(const Program &P, const std::vector<Op> &h, std::string &viol, HInfo *info, std::string *full_trace = nullptr) {
   World A(P); A.build();
-  int mark = -1; size_t markpos = 0; std::vector<int> runs_at_mark;
-  for (size_t k = 0; k < h.size() && A.viol.empty(); k++) { A.op(h[k].k); if (h[k].k == World::O_RESET) { mark = (int)k; markpos = A.trace.size(); runs_at_mark.clear(); for (int i = 0; i < A.N; i++) runs_at_mark.push_back(A.leaf[i] ? A.leaf[i]->runs : 0); } }
+  int mark = -1, conf_at_mark = 0; size_t markpos = 0; std::vector<int> runs_at_mark;
+  for (size_t k = 0; k < h.size() && A.viol.empty(); k++) { A.op(h[k].k); if (h[k].k == World::O_RESET) { mark = (int)k; markpos = A.trace.size(); conf_at_mark = A.to_conf[0]; runs_at_mark.clear(); for (int i = 0; i < A.N; i++) runs_at_mark.push_back(A.leaf[i] ? A.leaf[i]->runs : 0); } }
   std::string canon = A.viol.empty() ? A.canon() : std::string("viol");
-  if (info) { info->state = (uint8_t)A.root->state(); info->quiescent = A.quiescent(); info->queue_empty = A.queueEmpty(); info->timer_armed = A.timerArmed(); }
+  if (info) { info->state = (uint8_t)A.root->state(); info->quiescent = A.quiescent(); info->queue_empty = A.queueEmpty(); info->timer_armed = A.timerArmed(); info->to_conf = (uint8_t)A.to_conf[0];
+    info->pending = !A.queueEmpty() || World::heapMin() >= 0; }
   if (A.viol.empty()) A.probes();
   if (A.viol.empty()) A.epilogue();
   std::string atrace = A.trace, aviol = A.viol, status = A.end_status; bool stale_replay = A.stale_replay_ran; A.destroy();
   if (aviol.empty() && mark >= 0) {   // differential oracle: continuation after the last reset == same continuation on a freshly built tree
     T_diff++;
-    World B(P); B.build(); for (int i = 0; i < B.N; i++) if (B.leaf[i]) B.leaf[i]->runs = runs_at_mark[i];   // same environment: a leaf's outcome depends on how often it ran before
+    World B(P); B.build(conf_at_mark); for (int i = 0; i < B.N; i++) if (B.leaf[i]) B.leaf[i]->runs = runs_at_mark[i];   // same environment: a leaf's outcome depends on how often it ran before
     for (size_t k = (size_t)mark + 1; k < h.size() && B.viol.empty(); k++) B.op(h[k].k);
     if (B.viol.empty()) B.probes();
     if (B.viol.empty()) B.epilogue();
-    std::string btrace = B.trace; bool bv = !B.viol.empty(); B.destroy();
+    std::string btrace = B.trace; bool bv = !B.viol.empty(); bool both_endless = status == "endless-loop" && B.end_status == "endless-loop"; B.destroy();
     std::string acont = atrace.substr(markpos);
+    // two endless loops are cut off after the same number of drain passes, not after the same number of rounds (the reset tree may spend a pass on a
+    // housekeeping task of the loop that the fresh tree never had): compare what both have produced, provided that is most of it
+    if (both_endless && acont != btrace) { size_t m = std::min(acont.size(), btrace.size()); if (m * 4 >= std::max(acont.size(), btrace.size()) * 3) { acont.resize(m); btrace.resize(m); } }
     if (!bv && acont != btrace) { size_t d = 0; while (d < acont.size() && d < btrace.size() && acont[d] == btrace[d]) d++;
       aviol = std::string(stale_replay ? "held-child-finish-replayed-after-reset [observed as reset-tree-differs-from-fresh-tree]" : "reset-tree-differs-from-fresh-tree") + " continuation after reset diverges at char " + std::to_string(d) + ": reset tree [..." + acont.substr(d > 30 ? d - 30 : 0, 90) + "] fresh tree [..." + btrace.substr(d > 30 ? d - 30 : 0, 90) + "]"; }
   }
-  if (aviol.empty() && !status.empty()) g_outcomes.insert(std::string(kKind[P.n[0].k]) + (P.timeout ? "+timeout" : "") + " ends " + status);
+  if (aviol.empty() && !status.empty()) g_outcomes.insert(std::string(kKind[P.n[0].k]) + (P.timeout == 1 ? "+timeout" : P.timeout == 2 ? "+inner-timeout" : "") + " ends " + status);
   if (full_trace) *full_trace = atrace;
   viol = aviol;
   if (!aviol.empty()) report(P, h, aviol, atrace);
   return canon;
+}
+
+// terminal op `destroy`: replay the history, then delete the tree as it is (queued notifications, held results, armed timers) and let the loop run on
+static void destroy_probe(const Program &P, const std::vector<Op> &h, std::string &viol) {
+  T_destroy++;
+  World C(P); C.build(); C.quiet_trace = true;
+  for (size_t k = 0; k < h.size() && C.viol.empty(); k++) C.op(h[k].k);
+  if (!C.viol.empty()) { C.destroy(); return; }     // (already reported by evaluate)
+  hx::set_current("program#" + std::to_string(P.index) + " " + P.text + " ; history: " + hist_text(h) + " destroy");
+  C.destroyLive();
+  if (!C.viol.empty()) { viol = C.viol; std::vector<Op> h2 = h; report(P, h2, C.viol + " [history followed by: delete the tree, run the loop]", C.trace); }
 }
 
 static FILE *g_null;
@@ -552,7 +656,7 @@ static void explore_program(const Program &P, size_t depth) {
     std::vector<Op> m;
     if (!g_stop && (++g_evals & 15) == 0 && real_now() > g_deadline) g_stop = true;    // the deadline is polled when a history is expanded: the layer under evaluation is finished
     if (g_stop) return m;
-    auto it = info.find(key(h)); if (it == info.end()) { for (int k = 0; k < (P.timeout ? 7 : 6); k++) m.push_back(Op{k}); return m; }
+    auto it = info.find(key(h)); if (it == info.end()) { for (int k = 0; k < 7; k++) m.push_back(Op{k}); return m; }
     HInfo f = it->second; St s = (St)f.state;
     // calls that are answered without any effect in the current state (start while running, pause while paused, stop/pause/resume when not under
     // way, ...) are not expanded; they are issued as probes at the end of every history instead. A pass is expanded only if something is pending.
@@ -563,10 +667,14 @@ static void explore_program(const Program &P, size_t depth) {
       case St::kFinished: case St::kStoped: m.push_back(Op{World::O_RESET}); break;
     }
     if (!f.quiescent) m.push_back(Op{World::O_PASS});
-    if (P.timeout && f.timer_armed) m.push_back(Op{World::O_ADV});
+    if (f.timer_armed) m.push_back(Op{World::O_ADV});
+    if (g_lane == 'T' && (s == St::kRunning || s == St::kPause)) { m.push_back(Op{World::O_SETTO}); if (f.to_conf) m.push_back(Op{World::O_RSTTO}); }
     return m; };
+  std::unordered_set<std::string> destroyed_at;
   ex.run = [&](const std::vector<Op> &h, std::string &viol) {
-    HInfo f; std::string c = evaluate(P, h, viol, &f); info[key(h)] = f; return c; };
+    HInfo f; std::string c = evaluate(P, h, viol, &f); info[key(h)] = f;
+    if (viol.empty() && f.pending && destroyed_at.insert(c).second) destroy_probe(P, h, viol);    // once per canonical state that has something queued or armed
+    return c; };
   FILE *real = stdout; stdout = g_null;     // Explorer's per-program protocol lines are aggregated below instead of printed once per program
   ex.explore(depth);
   fflush(g_null); stdout = real;
@@ -579,14 +687,16 @@ int main(int argc, char **argv) {
   hx::install_crash_reporter("C17-crash");
   g_null = fopen("/dev/null", "w");
   g_loop = event::Loop::New(); g_cl = static_cast<event::CommonLoop *>(g_loop);
-  if (mode == "list") { Family fam(atoi(argv[4]), atoi(argv[3]), atoi(argv[2]), argc > 5 ? atoi(argv[5]) : 0); long n = 0; std::map<int, long> perw; fam.each([&](Program &p) { if (n < 100000) { Family::set_text(p); printf("%ld w=%d %s\n", p.index, p.weight, p.text.c_str()); } n++; perw[p.weight]++; return true; });
+  if (mode == "list") { if (argc > 6) g_lane = argv[6][0]; Family fam(atoi(argv[4]), atoi(argv[3]), atoi(argv[2]), argc > 5 ? atoi(argv[5]) : 0); long n = 0; std::map<int, long> perw; fam.each([&](Program &p) { if (n < 100000) { Family::set_text(p); printf("%ld w=%d %s\n", p.index, p.weight, p.text.c_str()); } n++; perw[p.weight]++; return true; });
     printf("shapes=%zu programs=%ld total()=%ld\n", fam.shapes.size(), n, fam.total()); for (auto &kv : perw) printf("weight %d: %ld programs\n", kv.first, kv.second); return 0; }
-  if (mode == "replay") { Family fam(atoi(argv[5]), atoi(argv[4]), atoi(argv[3]), argc > 8 ? atoi(argv[8]) : 0); long want = atol(argv[6]); std::vector<Op> h; std::string hs = argc > 7 ? argv[7] : ""; size_t p = 0;
-    while (p < hs.size()) { size_t q = hs.find(' ', p); if (q == std::string::npos) q = hs.size(); std::string tok = hs.substr(p, q - p); for (int k = 0; k < 7; k++) if (tok == kOp[k]) h.push_back(Op{k}); p = q + 1; }
+  if (mode == "replay") { if (argc > 9) g_lane = argv[9][0]; Family fam(atoi(argv[5]), atoi(argv[4]), atoi(argv[3]), argc > 8 ? atoi(argv[8]) : 0); long want = atol(argv[6]); std::vector<Op> h; std::string hs = argc > 7 ? argv[7] : ""; size_t p = 0;
+    while (p < hs.size()) { size_t q = hs.find(' ', p); if (q == std::string::npos) q = hs.size(); std::string tok = hs.substr(p, q - p); for (int k = 0; k < N_OPS; k++) if (tok == kOp[k]) h.push_back(Op{k}); p = q + 1; }
     fam.each([&](Program &P) { if (P.index != want) return true; Family::set_text(P); std::string viol, trace; HInfo f; std::string c = evaluate(P, h, viol, &f, &trace);
-      printf("program#%ld %s\nhistory: %s\ntrace: %s\ncanon: %s\nviolation: %s\n", P.index, P.text.c_str(), hist_text(h).c_str(), trace.c_str(), c.c_str(), viol.empty() ? "none" : viol.c_str()); return false; });
+      printf("program#%ld %s\nhistory: %s\ntrace: %s\ncanon: %s\nviolation: %s\n", P.index, P.text.c_str(), hist_text(h).c_str(), trace.c_str(), c.c_str(), viol.empty() ? "none" : viol.c_str());
+      if (viol.empty()) { std::string dv; destroy_probe(P, h, dv); printf("followed by destroy (delete the tree as it is, run the loop): %s\n", dv.empty() ? "none" : dv.c_str()); }
+      return false; });
     return 0; }
-  int part = atoi(argv[2]), nparts = atoi(argv[3]); size_t depth = (size_t)atoi(argv[4]); int maxw = atoi(argv[5]), maxc = atoi(argv[6]), maxd = atoi(argv[7]), mind = argc > 8 ? atoi(argv[8]) : 0;
+  int part = atoi(argv[2]), nparts = atoi(argv[3]); size_t depth = (size_t)atoi(argv[4]); int maxw = atoi(argv[5]), maxc = atoi(argv[6]), maxd = atoi(argv[7]), mind = argc > 8 ? atoi(argv[8]) : 0; if (argc > 9) g_lane = argv[9][0];
   const char *e = getenv("VERIF_DEADLINE_S"); g_deadline = real_now() + (e ? atof(e) : 600);
   Family fam(maxd, maxc, maxw, mind);
   long last_index = -1, total = fam.total(), first_skipped = -1; int last_weight = -1; long samples = 0;
@@ -598,11 +708,11 @@ int main(int argc, char **argv) {
     explore_program(P, depth);
     if (g_stop) { if (first_skipped < 0) first_skipped = P.index; } else { last_index = P.index; last_weight = P.weight; }
     return true; });
-  if (g_stop) printf("@CAP part %d/%d: deadline reached; programs are explored in canonical order, the first program of this partition that was not (completely) explored is #%ld of %ld (last complete one #%ld, weight class %d)\n", part, nparts, first_skipped, total, last_index, last_weight);
-  printf("@STAT states=%ld transitions=%ld executions=%ld violations=%ld replay_checks=%ld programs=%ld programs_reaching_fixpoint=%ld differential_runs=%ld\n", T_states, T_trans, T_exec + T_diff, T_viol, T_redet, T_programs, T_fix, T_diff);
+  if (g_stop) printf("@CAP lane %c part %d/%d: deadline reached; programs are explored in canonical order, the first program of this partition that was not (completely) explored is #%ld of %ld (last complete one #%ld, weight class %d)\n", g_lane, part, nparts, first_skipped, total, last_index, last_weight);
+  printf("@STAT states=%ld transitions=%ld executions=%ld violations=%ld replay_checks=%ld programs=%ld programs_reaching_fixpoint=%ld differential_runs=%ld destroy_runs=%ld\n", T_states, T_trans, T_exec + T_diff + T_destroy, T_viol, T_redet, T_programs, T_fix, T_diff, T_destroy);
   for (auto &kv : g_sig_count) printf("@STAT viol[%s]=%ld\n", kv.first.c_str(), kv.second);
   for (auto &o : g_outcomes) printf("@OUTCOME %s\n", o.c_str());
-  printf("@INFO part %d/%d: family programs=%ld shapes=%zu (weight<=%d, composites<=%d, %d<=depth<=%d), explored here=%ld, history depth bound=%zu, deepest new state at depth %ld, last complete program #%ld\n", part, nparts, total, fam.shapes.size(), maxw, maxc, mind, maxd, T_programs, depth, T_maxdepth, last_index);
+  printf("@INFO lane %c part %d/%d: family programs=%ld shapes=%zu (weight<=%d, composites<=%d, %d<=depth<=%d), explored here=%ld, history depth bound=%zu, deepest new state at depth %ld, last complete program #%ld\n", g_lane, part, nparts, total, fam.shapes.size(), maxw, maxc, mind, maxd, T_programs, depth, T_maxdepth, last_index);
   fflush(stdout);
   return 0;
 }
